@@ -9,7 +9,7 @@ TRACE_MODULE = "Trace_C12"
 def run(ctx):
     ctx.mc("MC_C12", "MC_C12.cfg",
            what="integer vectors of a box (L=2: -3..3, L=3: -2..2 x -1..1) as pairs / triples and rational unit vectors from Pythagorean "
-                "tuples x 12 rational index ratios: dot symmetric/bilinear/Cauchy-Schwarz, length postcondition, Lagrange identity, cross = "
+                "tuples x 9 rational index ratios: dot symmetric/bilinear/Cauchy-Schwarz, length postcondition, Lagrange identity, cross = "
                 "determinant formula, orthogonal, anti-commutative, proj+perp decomposition, reflect involution and isometry (action "
                 "reflect-and-back), faceforward / refract branch partitions total and disjoint, Snell's law over Q (squares), rational "
                 "refracted rays, closest point minimal on the segment, Gram-Schmidt; agreement of the division-free dyadic forms used by the "
@@ -26,7 +26,7 @@ def run(ctx):
     ctx.rule("every function of glm/geometric.hpp (dot length distance cross normalize faceforward reflect refract) on vec1..vec4 and the scalar "
              "genType overloads, gtx length2 distance2 l1Norm l2Norm lMaxNorm lxNorm proj perp orthonormalize(vec3,vec3 / mat3) angle "
              "orientedAngle(2D/3D) closestPointOnLine(2D/3D) triangleNormal cross(vec2) mixedProduct; float and double; highp plus every "
-             "fifth case mediump / lowp; inputs: pairs of small integer vectors (orthogonal, parallel, antiparallel, exact ties dot = 0 and "
+             "tenth (thorough: fifth) case mediump / lowp; inputs: pairs of small integer vectors (orthogonal, parallel, antiparallel, exact ties dot = 0 and "
              "k = 0), scaled and nearly degenerate configurations ((1,0,0) vs (1,2^-e,0), almost (anti)parallel), rational unit vectors "
              "from Pythagorean tuples (+-1 ulp) x rational eta on both sides of total internal reflection and at the critical angle, "
              "random dyadic vectors at random scales, GLM-normalised random directions, non-finite / extreme values (constrain nothing); "
